@@ -208,9 +208,31 @@ void h_c15_msf_fit(void)
         }
         KV_REACH();
 }
+/* ------------------------------------------------------------------------------------------------ sort_out_lines (P)
+ * The comparator that puts the buffered Clustal / MSF lines into file order: block ascending (header lines carry block -1),
+ * then seq_id ascending (header lines count up from -(numseq+10); the separator of a block carries seq_id == numseq).
+ * Contract, over the FULL int domain of both keys (loop-free harness: complete): the sign of the result is the
+ * lexicographic comparison of (block, seq_id); no arithmetic overflow; nothing but the two keys is read.               */
+void h_c15_sort_out_lines(void)
+{
+        struct out_line x, y;
+        struct out_line* px = &x;
+        struct out_line* py = &y;
+        int r, spec;
+        x.block = kv_in_int(); x.seq_id = kv_in_int(); x.line = NULL;
+        y.block = kv_in_int(); y.seq_id = kv_in_int(); y.line = NULL;
+        spec = x.block != y.block ? (x.block < y.block ? -1 : 1) : (x.seq_id != y.seq_id ? (x.seq_id < y.seq_id ? -1 : 1) : 0);
+        r = sort_out_lines(&px, &py);
+        KV_CHECK((spec < 0 && r < 0) || (spec == 0 && r == 0) || (spec > 0 && r > 0), "sort_out_lines orders by block, then by row within the block, for any number of rows and blocks");
+        KV_REACH();
+}
 #ifdef KV_NATIVE
 int main(void)
 {
+#ifdef KV_ENTRY_SORTLINES
+        h_c15_sort_out_lines();
+        return kv_failed ? 1 : 0;
+#endif
         h_c15_msf_fit();
         return kv_failed ? 1 : 0;
 }
